@@ -29,8 +29,16 @@ fn parse(input: &[u8]) -> Option<(Module, InputIds)> {
     Some((m, ids))
 }
 
-fn build_body(b: &mut InstrSeqBuilder, trace: FunctionId, results: &[ValType]) {
+/// The body goes through a scratch local that was allocated before the call (so it is older than the fresh
+/// argument locals of `replace_imported_func`) and reads every argument once.
+fn build_body(b: &mut InstrSeqBuilder, trace: FunctionId, results: &[ValType], scratch: LocalId, args: &[LocalId]) {
     b.i32_const(0x7ACE);
+    b.local_set(scratch);
+    for a in args {
+        b.local_get(*a);
+        b.drop();
+    }
+    b.local_get(scratch);
     b.call(trace);
     for r in results {
         match r {
@@ -94,10 +102,11 @@ pub fn run(input: &[u8], rec: &mut Rec) {
                 let trace_ty = m.types.add(&[ValType::I32], &[]);
                 let (trace, _) = m.add_import_func("wv", "trace", trace_ty);
                 let results = m.types.get(m.funcs.get(fid).ty()).results().to_vec();
+                let scratch = m.locals.add(ValType::I32);
                 let r = if kind == "imp" {
-                    m.replace_imported_func(fid, |(b, _args)| build_body(b, trace, &results))
+                    m.replace_imported_func(fid, |(b, args)| build_body(b, trace, &results, scratch, args))
                 } else {
-                    m.replace_exported_func(fid, |(b, _args)| build_body(b, trace, &results))
+                    m.replace_exported_func(fid, |(b, args)| build_body(b, trace, &results, scratch, args))
                 };
                 r.map_err(|e| format!("{:#}", e))?;
                 Ok(m.emit_wasm())
